@@ -312,6 +312,8 @@ def check_C16(A, R, tier):
     # R16.3: the failure reaches the dependants (they become upstream-failed)
     from rules_more import rule_failure_propagation
     rule_failure_propagation(A, R, "R16.3", "R16.3")
+    # R16.4: 'inputs unchanged' (the Validated tag under which the check is made) is only concluded through comparisons (= R3.3)
+    rule_validation_verdict(A, R, "R16.4")
     # nowhere else
     for (entry, label), run in all_runs(A):
         if entry == A.evaluator_fn("event_job_finished_success").name:
@@ -385,6 +387,62 @@ def invalidated_states(A):
         if runs and not (runs & checked):
             out.add(s)
     return out
+
+
+def rule_validation_verdict(A, R, rule):
+    """the validation function never answers 'validated' past an undecided upstream, an invalidated dependency, or an upstream
+    for which no comparison was consulted.  Returns (validation functions, verdict type)."""
+    C = A.classes()
+    sk = skip_kind(A)
+    inv = invalidated_states(A)
+    # R3.3: the validation verdict -------------------------------------------------------------------
+    uvs = [b for b in A.evaluator_methods() if b.locals[0]["s"].startswith("std::result::Result<%s" % validation_ty(A))]
+    R.floor(rule, "validation function", len(uvs), 1)
+    vt = validation_ty(A)
+    for b in uvs:
+        g = call_graph(A)
+        ei_names = set(n for n in reachable_from(g, [b.name]) if n != b.name and A.facts.body(n) is not None
+                       and A.facts.body(n).locals[0]["s"].startswith("std::result::Result<bool")
+                       and any(blk["term"]["t"]["k"] == "call" and (M.callee_of(blk["term"]["t"]) or ("",))[0] == STRAT + "is_history_altered"
+                               for blk in A.facts.body(n).blocks))
+        R.floor(rule, "dependency checks called by the validation function", len(ei_names), 1)
+
+        validated = validated_verdict(A, sk)
+        R.ob(rule, "the 'validated' verdict is identified", validated is not None)
+        if validated is None:
+            continue
+        undecided = set(C["Init"]) | inv | set(C["Ready"]) | set(C["Running"])
+        res = verdict_loop(A, b, ei_names, vt, validated)
+        R.ob(rule, "%s | the loop over the upstreams and its accumulators are identified" % short(b.name), res is not None,
+             detail="cannot find the single loop over the upstreams with its flags/counters")
+        if res is None:
+            continue
+        for d in A.JS:
+            if d not in A.reach():
+                continue
+            pt = res["pass"].get((d, True))
+            pf = res["pass"].get((d, False))
+            cons = res["consulted"].get(d, False)
+            if cons:
+                R.ob(rule, "%s | upstream in %s, dependency judged invalidated | the verdict cannot be 'validated'" % (short(b.name), A.sname(d)),
+                     not pt, detail="an invalidated dependency leaves all accumulators of the verdict untouched")
+            if d in undecided:
+                R.ob(rule, "%s | upstream still %s | the verdict cannot be 'validated'" % (short(b.name), A.sname(d)), not pf and not pt,
+                     detail="a job can be validated while an upstream is undecided / invalidated / not finished")
+            elif d not in C["FailedLike"]:
+                # any other upstream (finished without failure, or pending but decided - a validated Ephemeral that may never
+                # run): it may leave the verdict 'validated' only if a comparison of what was consumed with what the upstream
+                # has (or has on record) was consulted in this iteration and did not say 'altered'
+                compared = res.get("compared", {}).get(d, False)
+                R.ob(rule, "%s | upstream in %s | passes the verdict only through a comparison that says 'unaltered'" % (short(b.name), A.sname(d)),
+                     not pt and (compared or not pf),
+                     detail=("with the comparison answering 'altered' the iteration leaves the verdict untouched" if pt else
+                             "the iteration leaves the verdict untouched without consulting any comparison: a job whose input changed "
+                             "(e.g. in an interrupted run) is validated, skipped or run as 'validated'"))
+        for name, ok in res["gate"]:
+            R.ob(rule, "%s | 'validated' is answered only with %s" % (short(b.name), name), ok)
+        R.floor(rule, "upstream states for which the dependency check is consulted", sum(1 for v in res["consulted"].values() if v), 5)
+    return uvs, vt
 
 
 @prop("C03")
@@ -507,43 +565,7 @@ def check_C03(A, R, tier):
                 tos |= set(w["to"])
             R.ob("R3.2", "startup | %s job whose result does not exist | is marked invalidated on every path" % kn,
                  must_write(I, fr, ws) and bool(tos) and tos <= inv, detail="states written: %s" % A.snames(tos))
-    # R3.3: the validation verdict -------------------------------------------------------------------
-    uvs = [b for b in A.evaluator_methods() if b.locals[0]["s"].startswith("std::result::Result<%s" % validation_ty(A))]
-    R.floor("R3.3", "validation function", len(uvs), 1)
-    vt = validation_ty(A)
-    for b in uvs:
-        g = call_graph(A)
-        ei_names = set(n for n in reachable_from(g, [b.name]) if n != b.name and A.facts.body(n) is not None
-                       and A.facts.body(n).locals[0]["s"].startswith("std::result::Result<bool")
-                       and any(blk["term"]["t"]["k"] == "call" and (M.callee_of(blk["term"]["t"]) or ("",))[0] == STRAT + "is_history_altered"
-                               for blk in A.facts.body(n).blocks))
-        R.floor("R3.3", "dependency checks called by the validation function", len(ei_names), 1)
-
-        validated = validated_verdict(A, sk)
-        R.ob("R3.3", "the 'validated' verdict is identified", validated is not None)
-        if validated is None:
-            continue
-        undecided = set(C["Init"]) | inv | set(C["Ready"]) | set(C["Running"])
-        res = verdict_loop(A, b, ei_names, vt, validated)
-        R.ob("R3.3", "%s | the loop over the upstreams and its accumulators are identified" % short(b.name), res is not None,
-             detail="cannot find the single loop over the upstreams with its flags/counters")
-        if res is None:
-            continue
-        for d in A.JS:
-            if d not in A.reach():
-                continue
-            pt = res["pass"].get((d, True))
-            pf = res["pass"].get((d, False))
-            cons = res["consulted"].get(d, False)
-            if cons:
-                R.ob("R3.3", "%s | upstream in %s, dependency judged invalidated | the verdict cannot be 'validated'" % (short(b.name), A.sname(d)),
-                     not pt, detail="an invalidated dependency leaves all accumulators of the verdict untouched")
-            if d in undecided:
-                R.ob("R3.3", "%s | upstream still %s | the verdict cannot be 'validated'" % (short(b.name), A.sname(d)), not pf and not pt,
-                     detail="a job can be validated while an upstream is undecided / invalidated / not finished")
-        for name, ok in res["gate"]:
-            R.ob("R3.3", "%s | 'validated' is answered only with %s" % (short(b.name), name), ok)
-        R.floor("R3.3", "upstream states for which the dependency check is consulted", sum(1 for v in res["consulted"].values() if v), 5)
+    uvs, vt = rule_validation_verdict(A, R, "R3.3")
     # R3.5: a job of a kind without cleanup is skipped only under the 'validated' verdict
     sc = [A.facts.body(n) for n in sorted(consider_entry_fns(A, sk))]
     for b in sc:
@@ -564,6 +586,9 @@ def check_C03(A, R, tier):
     rule_started_failed_dropped(A, R, "R3.6")
     rule_failed_edges_untouched(A, R, "R3.6")
     rule_never_started_kept(A, R, "R3.6")
+    from rules_history import rule_output_attached, pair_rule
+    rule_output_attached(A, R, "R3.6")     # an attempt that is reported failed leaves no output behind that new_history would record
+    pair_rule(A, R, "R3.6")                # the input-name list is (re)written only together with the output record of a success
     R.explanation = ("Each change detector is shown to reach the decision (necessary conditions): the startup classification is analysed with "
                      "the detector's outcome forced (input-name list differs / result missing / no own record) and must, on every path, move "
                      "the job to a state from which it is never re-validated; the validation function is analysed with the dependency "
@@ -633,7 +658,12 @@ def verdict_loop(A, b, ei_names, vt, validated):
         for ei_val in (True, False):
             called = []
             ov = dict((n, mk(ei_val, called)) for n in ei_names)
-            ov[STRAT + "is_history_altered"] = force_bool(ei_val)
+            direct = []
+
+            def fb(I_, st_, fr_, bi_, t_, a_, sp_, _v=ei_val, _d=direct):
+                _d.append(1)
+                return force_bool(_v)(I_, st_, fr_, bi_, t_, a_, sp_)
+            ov[STRAT + "is_history_altered"] = fb
             I = Interp(A.facts, A.uni, A.layout, Config(label="UVI"))
             I.models = dict(I.models)
             I.models.update(ov)
@@ -668,6 +698,8 @@ def verdict_loop(A, b, ei_names, vt, validated):
             res["pass"][(d, ei_val)] = passing
             if called:
                 res["consulted"][d] = True
+            if called or direct:
+                res.setdefault("compared", {})[d] = True
     # gate: from the continuation, which valuations can give the validated verdict?
     def verdicts(vals):
         if cont not in ins:
